@@ -375,13 +375,12 @@ def run_layout(r, work, tier):
             obs.append(ob)
     ctl = kern.Ob("control/layout", "bool", P, "return m != 7;", [], pre=["m >= 0", "m <= %d" % _MMAX], kind="ir")
     kern.run_obligations(work, obs + [ctl], batch=60, second_chance=False)
-    chunks = [L[i:i + 150] for i in range(0, len(L), 150)]
-    trees = {}
-    for res, _ in tc.pmap(lambda a: selection_trees(work, a[1], str(a[0])), list(enumerate(chunks))):
-        trees.update(res)
-    ftrees = {}
-    for res, _ in tc.pmap(lambda a: selection_trees(work, a[1], "full" + str(a[0]), full=True), list(enumerate(chunks))):
-        ftrees.update(res)
+    step = min(40, max(8, -(-len(L) // 8)))
+    chunks = [L[i:i + step] for i in range(0, len(L), step)]
+    trees, ftrees = {}, {}
+    jobs = [(i, c, False) for i, c in enumerate(chunks)] + [(i, c, True) for i, c in enumerate(chunks)]
+    for (i, c, full), (res, _) in zip(jobs, tc.fmap(lambda a: selection_trees(work, a[1], ("full" if a[2] else "") + str(a[0]), full=a[2]), jobs)):
+        (ftrees if full else trees).update(res)
     cnt = {"proved": 0, "refuted": 0, "undecided": 0}
     dom = ISet.from_signed(32, 0, _MMAX)
 
